@@ -7,8 +7,8 @@ from common import *
 IMPORTS = ("From Alator Require Import Model.Num Model.Quirks Model.Exchange Model.Uist Model.Jura "
            "Check.Eqb Check.ExchCheck.")
 
-ASPECTS = {0: "kind", 1: "fills", 2: "admitted", 3: "triggered", 4: "book", 5: "buffer", 6: "next_id", 7: "log"}
-A_KIND, A_FILLS, A_ADMITTED, A_TRIGGERED, A_BOOK, A_BUFFER, A_NEXTID, A_LOG = [1 << i for i in range(8)]
+ASPECTS = {0: "kind", 1: "fills", 2: "admitted", 3: "triggered", 4: "book", 5: "buffer", 6: "next_id", 7: "log", 8: "sort_exact"}
+A_KIND, A_FILLS, A_ADMITTED, A_TRIGGERED, A_BOOK, A_BUFFER, A_NEXTID, A_LOG, A_SORT = [1 << i for i in range(9)]
 
 UTYPES = ["MarketSell", "MarketBuy", "LimitSell", "LimitBuy", "StopSell", "StopBuy"]
 SYMS = ["ABC", "BCD", "XYZ"]
@@ -384,10 +384,10 @@ def run_exchange(wd, scs, quirks="clean", name="exch"):
         all_steps.append(s)
     mism = []
     if u_idx:
-        r = eval_steps(wd, name + "_u", IMPORTS, [all_terms[i] for i in u_idx], "ustep_mask")
+        r = eval_steps(wd, name + "_u", IMPORTS, [all_terms[i] for i in u_idx], "ustep_mask_sz %s" % gn(order_size(trs, u_idx)))
         mism += [(u_idx[a], b, m) for a, b, m in r]
     if j_idx:
-        r = eval_steps(wd, name + "_j", IMPORTS, [all_terms[i] for i in j_idx], "jstep_mask %s" % quirks)
+        r = eval_steps(wd, name + "_j", IMPORTS, [all_terms[i] for i in j_idx], "jstep_mask_sz %s %s" % (quirks, gn(order_size(trs, j_idx))))
         mism += [(j_idx[a], b, m) for a, b, m in r]
     return trs, all_steps, sorted(mism)
 
@@ -727,6 +727,17 @@ def oracle_c18(sc, steps):
     return None
 
 
+def order_size(trs, idx):
+    """size_of::<Order>() of the exchange's order type as the harness observed it (it selects the driftsort path);
+    1 when a trace does not say (old corpus traces are re-run, so this does not happen in practice)"""
+    if os.environ.get("VERIF_SELFTEST_ORDER_SIZE"):       # self-test of the exact-sort comparison only
+        return int(os.environ["VERIF_SELFTEST_ORDER_SIZE"])
+    for i in idx:
+        if isinstance(trs[i], dict) and "order_size" in trs[i]:
+            return int(trs[i]["order_size"])
+    return 1
+
+
 ORACLES = dict(C01=oracle_c01, C02=oracle_c02, C03=oracle_c03, C17=oracle_c17, C18=oracle_c18)
 
 
@@ -738,7 +749,7 @@ PROJ = {
     "C01": (("uist", "jura"), None, A_KIND | A_FILLS | A_ADMITTED | A_TRIGGERED | A_NEXTID),
     "C02": (("uist",), "tick", A_KIND | A_FILLS | A_BOOK),
     "C03": (("uist", "jura"), None, A_KIND | A_FILLS | A_ADMITTED | A_TRIGGERED | A_BOOK | A_BUFFER | A_NEXTID),
-    "C17": (("uist", "jura"), "tick", A_KIND | A_ADMITTED | A_FILLS | A_NEXTID | A_TRIGGERED),
+    "C17": (("uist", "jura"), "tick", A_KIND | A_ADMITTED | A_FILLS | A_NEXTID | A_TRIGGERED | A_SORT),
     "C18": (("jura",), None, A_KIND | A_FILLS | A_TRIGGERED | A_BOOK | A_LOG | A_ADMITTED),
 }
 EXCH_FLAGS = ["q_jura_sell_triggers_inverted"]
@@ -845,10 +856,10 @@ def run_property(res, prop, tier, seed, replay, prop_files):
             mism = []
             if u_idx:
                 if "u" not in cache:
-                    cache["u"] = eval_steps(wd, "u", IMPORTS, [terms[i] for i in u_idx], "ustep_mask")
+                    cache["u"] = eval_steps(wd, "u", IMPORTS, [terms[i] for i in u_idx], "ustep_mask_sz %s" % gn(order_size(trs, u_idx)))
                 mism += [(u_idx[a], b, m) for a, b, m in cache["u"]]
             if j_idx:
-                r = eval_steps(wd, "j", IMPORTS, [terms[i] for i in j_idx], "jstep_mask %s" % g_quirks(val))
+                r = eval_steps(wd, "j", IMPORTS, [terms[i] for i in j_idx], "jstep_mask_sz %s %s" % (g_quirks(val), gn(order_size(trs, j_idx))))
                 mism += [(j_idx[a], b, m) for a, b, m in r]
             cache[val] = project(sorted(mism))
         return cache[val]
